@@ -614,6 +614,9 @@ def execute(program, ch: Chooser) -> Result:  # noqa: C901, PLR0912, PLR0915
                 viols.append(viol("declaration", f"default/{ak.unwrap(t)[0]}", "declares", f"{type(exc).__name__}: {exc}"[:160], term=t))
             continue
         _check_value(dcls, "a", v, t, "default", viols, stats, lambda v, dcls=dcls: dcls())
+        # ... and a second construction relying on the same default gives the same verdict
+        steps += 1
+        _check_value(dcls, "a", v, t, "default-again", viols, stats, lambda v, dcls=dcls: dcls())
     depth = ak.depth_of(t)
     out = f"d{depth}/{ak.unwrap(t)[0]}/acc={min(stats['accepted'], 1)}/rej={min(stats['rejected'], 1)}/unspec={min(stats[ak.U], 1)}"
     nontrivial = depth >= 2 and stats["accepted"] > 0 and stats["rejected"] > 0
